@@ -159,6 +159,27 @@ def run(ck):
         with_pump = (i % 3 == 0)
         lines = gen(rng, with_pump)
         pairs.append((render(lines, False), render(lines, True), with_pump, lines, render(lines, "mixed", rng)))
+    # fixed programs: local names in a struct body before its first member (padding and alignment come first), and
+    # around every switch between the CODE and ADDR segments (a segment switch is not a scope)
+    for pad in ("@ds 1 + 2 * @isdef .aa", "@align 2 + 2 * @isdef .aa", "@ds .aa", "@ds 1 + @isdef .bb\n  @align 2", "@ds @sizeof .aa"):
+        for outer_def in ("@defn .aa, 2", ".aa:", "@db 0"):
+            corpus = [("Outer:", None), (outer_def, "Outer"), ("@defn .bb, 1", "Outer"),
+                      ("@struct Rec\n  %s\n  aa 2\n  @align 4\n  bb .aa + 3\n  @ds @isdef .bb + @isdef .cc\n  cc @sizeof .bb\n@endstruct" % pad,
+                       ("STRUCT", "Rec", "Outer")),
+                      ("@db Rec, Rec.aa, Rec.bb, Rec.cc, @isdef .aa, @isdef .cc, .bb", "Outer")]
+            pairs.append((render(corpus, False), render(corpus, True), False, corpus, render(corpus, "mixed", rng)))
+    for first, second in (("CODE", "ADDR"), ("ADDR", "CODE"), ("CODE", "CODE"), ("ADDR", "ADDR")):
+        for back in (True, False):
+            corpus = [('@segment "%s"' % first, None), ("@org $100", None), ("Glob1:", None), (".aa:", "Glob1"), ("@ds 2", "Glob1"),
+                      ('@segment "%s"' % second, "Glob1"), ("@org $c000", "Glob1"), (".bb:", "Glob1"), ("@ds 3", "Glob1"),
+                      ("@defn .cc, .bb + @isdef .aa", "Glob1")]
+            if back:
+                corpus += [('@segment "%s"' % first, "Glob1"), ("@redefl .cc, .aa + 1", "Glob1"), ("@ds 1", "Glob1"), ("@undef .bb", "Glob1")]
+            corpus += [('@segment "CODE"', "Glob1"), ("@dw .aa, .cc, @isdef .bb, @isdef .cc", "Glob1")]
+            pairs.append((render(corpus, False), render(corpus, True), False, corpus, render(corpus, "mixed", rng)))
+    if os.environ.get("VERIF_SHOW_C09_CORPUS"):
+        for p_, q_, _, _, _ in pairs[-23:]:
+            print(repr(p_)); print(repr(q_))
     progs = []
     for p, q, _, _, m in pairs:
         progs += [("z80", p), ("z80", q), ("z80", m)]
